@@ -410,7 +410,7 @@ var theDir string
 
 func openStore() (*storage.BadgerStore, func()) {
 	if theStore == nil {
-		dir, err := os.MkdirTemp("", "c27-")
+		dir, err := os.MkdirTemp(tmpRoot(), "c27-")
 		if err != nil {
 			panic(err)
 		}
@@ -428,6 +428,20 @@ func openStore() (*storage.BadgerStore, func()) {
 			panic(fmt.Sprintf("store not empty after wipe: %d %v", n, err))
 		}
 	}
+}
+
+// the store syncs every commit; a memory file system (when there is one) makes
+// that free.  "" = the default temporary directory.
+func tmpRoot() string {
+	if os.Getenv("TMPDIR") == "" {
+		if st, err := os.Stat("/dev/shm"); err == nil && st.IsDir() {
+			if d, err := os.MkdirTemp("/dev/shm", "probe"); err == nil {
+				os.RemoveAll(d)
+				return "/dev/shm"
+			}
+		}
+	}
+	return ""
 }
 
 func closeStore() {
